@@ -21,6 +21,8 @@ def cut_key(c):
     body reached the client, how the origin's connection ended."""
     client = c.get("go", {}).get("framing", "?")
     v = c.get("go", {}).get("verdict", "?")
+    if v == "complete" and c["framing"] == "close" and c.get("end") == "tlscut":
+        return "truncated-complete:close-delimited-reply-tls-cut-without-close-notify%s" % ("-mitm-client" if c.get("route") == "mitm" else "")
     if v == "complete" and client == "close":
         if c["framing"] == "close":
             how = {"rst": "reset", "tlscut": "tls-cut-without-close-notify"}.get(c["end"], c["end"])
